@@ -63,6 +63,8 @@ func vfPoolQueueLen(p *WorkerPool) int {
 	return len(p.taskQueue)
 }
 
+var vfC20BlockedSeen atomic.Int32
+
 func TestVerif_C20(t *testing.T) {
 	rec := evid.New("C20")
 	rec.Rule = "pool sizes {1,2,4}; b busy tasks parked on gates, q queued behind them (0..2*size+overflow), then Stop / Resize (grow, shrink, same) / both, racing with fresh Submit and SubmitWait; gates released in seeded orders; plus server level: requests in flight through ExecuteWithWorker during UpdateTuningOptions(MaxWorkers) and Close; distinct = (size, busy, queued class, action, release order) tuples"
@@ -259,11 +261,18 @@ func vfC20Scenario(rec *evid.Rec, s int) {
 		case <-time.After(2 * time.Second):
 		}
 		pool.Stop()
-	} else {
-		select {
-		case <-subDone:
-		case <-time.After(300 * time.Millisecond):
-		}
+	}
+	// Stop has returned: every submitter must come back. The wait is generous (a loaded machine may
+	// take long to schedule a goroutine that has already been woken) and ends as soon as they are
+	// all back; only after three witnessed blocked submitters is it cut short, to bound the run.
+	wait := 20 * time.Second
+	if vfC20BlockedSeen.Load() >= 3 {
+		wait = 500 * time.Millisecond
+	}
+	select {
+	case <-subDone:
+	case <-time.After(wait):
+		vfC20BlockedSeen.Add(1)
 	}
 	// ---- audit: Stop has returned, every gate is open, no worker exists ----
 	maxAllowed := int32(size)
